@@ -31,3 +31,11 @@ def gen(rng, tier):
         else:
             cases.append(queues.random_history(rng, rng.randint(1, 25), drain=True, caps=[0, 1, 2]))
     return cases
+
+PINNED = ['C03_holds', 'C03_wf_needed']
+LEVEL_TEXT = 'Theorem over ALL well-formed sequential histories (any number of handles, capacities, priorities, lengths) of the Gallina transcription of ordered_work_steal.rs: popped items are pending items and never repeat, an idle local pop implies nothing is pending (hence a drain returns exactly the pending multiset), shared/full length exact. Proved by a multiset-conservation invariant over every model step (overflow, steal, shared pop). The transcription is tied to /repo by lockstep histories on the real source (shim-included so the random steal start is an input). The concurrent counter protocol is validated by exhaustive small-scope interleavings on the shimmed source (support, not the claim).'
+LEVEL_NOTE = ("Trusted: Coq kernel + vm_compute; hand transcription of ordered_work_steal.rs (model OWS.v) validated on the "
+              "sampled histories only; st3 rings / crossbeam injectors / skiplist modelled as FIFO lists and a sorted map; "
+              "sequential histories (one call at a time); the steal start index is an input via the build.rs import "
+              "rewrite. The plain WorkStealQueue is not modelled. No axioms (closed under the global context).")
+TECHNIQUE = "Coq proof (invariants over all histories of a Gallina model) + lockstep differential correspondence inside Coq"
